@@ -45,7 +45,7 @@ TRUSTED = base.TRUSTED
 PARTIAL = []
 
 NULLLOG = base.NULLLOG
-_history = dict(last_file_region=None, last_sky=None)
+_history = dict(last_file_region=None, last_sky=None, off_sky_inside=0)
 
 
 # ------------------------------------------------------------------------------------------------
@@ -289,9 +289,14 @@ def oracle_inside(wcs, reg, H, W):
         sky = wcs.wcs.wcs_pix2world(xy, 0)
     ra, dec = sky[:, 0], sky[:, 1]
     ins = np.asarray(reg.sky_within(ra, dec, degin=True), dtype=bool)
+    # a pixel whose centre has NO sky position (beyond the limb of a hemispheric / all-sky projection) is never
+    # inside a region, whatever sky_within says about the NaNs
+    on_sky = np.isfinite(ra) & np.isfinite(dec)
+    _history['off_sky_inside'] = int((ins & ~on_sky).sum())
+    ins = ins & on_sky
     stable = True
     for da, dd in [(1e-9, 0), (-1e-9, 0), (0, 1e-9), (0, -1e-9)]:
-        if not np.array_equal(ins, np.asarray(reg.sky_within(ra + da, dec + dd, degin=True), dtype=bool)):
+        if not np.array_equal(ins, np.asarray(reg.sky_within(ra + da, dec + dd, degin=True), dtype=bool) & on_sky):
             stable = False
     _history['last_sky'] = (ra.reshape(H, W), dec.reshape(H, W))
     return ins.reshape(H, W), stable
@@ -338,6 +343,85 @@ def gen_sky_case(rng):
                         extra=dict(stream='sky', header=vals, region=spec, region_kind=spec['shape']))
 
 
+def sky_of(vals, H, W):
+    from AegeanTools.wcs_helpers import WCSHelper
+    with warnings.catch_warnings():
+        warnings.simplefilter('ignore')
+        wcs = WCSHelper.from_header(header_from_vals(vals))
+        rr, cc = np.mgrid[0:H, 0:W]
+        sky = wcs.wcs.wcs_pix2world(np.stack([cc.ravel(), rr.ravel()], axis=1).astype(float), 0)
+    return wcs, sky[:, 0].reshape(H, W), sky[:, 1].reshape(H, W)
+
+
+def finish_sky_case(kind, im, vals, spec, wcs, extra):
+    H, W = im.shape
+    ins, stable = oracle_inside(wcs, make_region(spec), H, W)
+    if not stable:
+        return None
+    return base.mk_case(kind, im, np.zeros_like(im), np.ones_like(im), 4.0, 5.0, inside=ins,
+                        extra=dict(dict(stream='sky', header=vals, region=spec, region_kind=extra.pop('region_kind'),
+                                        off_sky_inside=_history['off_sky_inside']), **extra))
+
+
+def gen_big_island_case(rng, k=0):
+    """an extended island of more than 1000 pixels with a TINY region (a small disc of depth-13..15 cells) sitting on
+    its peak, well inside its outline: the island has own pixels inside the region and must be kept; a second
+    variant puts the tiny region just off the island (dropped)."""
+    H, W = int(rng.integers(64, 81)), int(rng.integers(64, 81))
+    proj = PROJ[k % len(PROJ)]
+    cd = 0.01
+    vals = dict(NAXIS=2, NAXIS1=W, NAXIS2=H, CTYPE1='RA---' + proj, CTYPE2='DEC--' + proj,
+                CRVAL1=float(rng.uniform(5, 355)), CRVAL2=float(rng.uniform(-70, 70)), CDELT1=-cd, CDELT2=cd,
+                CRPIX1=float(W / 2), CRPIX2=float(H / 2), BMAJ=3 * cd, BMIN=3 * cd, BPA=0.0)
+    yy, xx = np.mgrid[0:H, 0:W]
+    r0, c0 = rng.uniform(H * 0.4, H * 0.6), rng.uniform(W * 0.4, W * 0.6)
+    sr, sc = rng.uniform(9, 12), rng.uniform(9, 12)
+    im = 40.0 * np.exp(-0.5 * (((yy - r0) / sr) ** 2 + ((xx - c0) / sc) ** 2))
+    im[0, 0] = 7.0                       # and a small island in the corner
+    wcs, ra, dec = sky_of(vals, H, W)
+    on_peak = k % 3 != 2
+    pr, pc = (int(round(r0)), int(round(c0))) if on_peak else (1, W - 2)
+    spec = dict(shape='circle', ra=float(ra[pr, pc]), dec=float(dec[pr, pc]), radius=float(cd * rng.uniform(1.0, 3.0)),
+                depth=int(rng.choice([13, 14, 15])))
+    return finish_sky_case('big-island', im, vals, spec, wcs,
+                           dict(region_kind='tiny-on-peak' if on_peak else 'tiny-off-island'))
+
+
+def gen_limb_case(rng, k=0):
+    """hemispheric SIN / all-sky AIT images: pixels beyond the limb have finite data but NO sky position.  One island
+    spills over the limb far from the pole (no on-sky pixel in the region: must be dropped), one sits on the pole
+    inside a polar-cap region (kept), one at the image centre."""
+    if k % 2 == 0:
+        proj, cd, W, H, dec0 = 'SIN', 2.0, 64, 64, float(rng.uniform(35, 60)) * (1 if k % 4 == 0 else -1)
+    else:
+        proj, cd, W, H, dec0 = 'AIT', 4.0, 96, 48, 0.0
+    vals = dict(NAXIS=2, NAXIS1=W, NAXIS2=H, CTYPE1='RA---' + proj, CTYPE2='DEC--' + proj,
+                CRVAL1=float(rng.uniform(5, 355)), CRVAL2=dec0, CDELT1=-cd, CDELT2=cd,
+                CRPIX1=W / 2 + 0.5, CRPIX2=H / 2 + 0.5, BMAJ=3 * cd, BMIN=3 * cd, BPA=0.0)
+    wcs, ra, dec = sky_of(vals, H, W)
+    on = np.isfinite(ra) & np.isfinite(dec)
+    north = dec0 >= 0
+    pole_dec = 90.0 if north else -90.0
+    im = np.zeros((H, W))
+    # limb pixels: on-sky with an off-sky 4-neighbour, in the hemisphere away from the cap's pole
+    pad = np.pad(on, 1, constant_values=False)
+    edge = on & ~(pad[:-2, 1:-1] & pad[2:, 1:-1] & pad[1:-1, :-2] & pad[1:-1, 2:])
+    away = edge & ((dec < dec0 - 30) if north else (dec > dec0 + 30))
+    cand = np.argwhere(away & (np.arange(H)[:, None] > 2) & (np.arange(H)[:, None] < H - 3) &
+                       (np.arange(W)[None, :] > 2) & (np.arange(W)[None, :] < W - 3))
+    if len(cand) == 0:
+        return None
+    pr, pc = cand[rng.integers(0, len(cand))]
+    im[pr - 2:pr + 3, pc - 2:pc + 3] = 6.0                 # spills over the limb
+    d_pole = np.where(on, np.abs(dec - pole_dec), np.inf)
+    qr, qc = np.unravel_index(np.argmin(d_pole), d_pole.shape)
+    if 1 <= qr < H - 1 and 1 <= qc < W - 1:
+        im[qr - 1:qr + 2, qc - 1:qc + 2] = 7.0             # on the pole
+    im[H // 2 - 1:H // 2 + 1, W // 2 - 1:W // 2 + 2] = 6.5     # image centre
+    spec = dict(shape='circle', ra=0.0, dec=pole_dec, radius=float(rng.uniform(8, 16)), depth=int(rng.choice([6, 8, 10])))
+    return finish_sky_case('limb', im, vals, spec, wcs, dict(region_kind='polar-cap-' + proj))
+
+
 def impl_sky(c):
     from AegeanTools.wcs_helpers import WCSHelper
     im, bkg, rms, flood, seed, inside = base.arrays(c)
@@ -382,6 +466,11 @@ def evaluate(ctx, cases, use_lean=True):
             if model is None:
                 ctx.fail('corr', c, f"driver rejected the request: {o[:200]}", dict(site='driver', what='protocol'))
                 continue
+        if c.get('off_sky_inside'):
+            ctx.fail('spec', dict(c, pretty=base.pretty(c)),
+                     f"Region.sky_within reports {c['off_sky_inside']} pixel centres that have NO sky position (beyond the limb "
+                     f"of the {c['header']['CTYPE1'][-3:]} projection) as inside the region",
+                     dict(site='Region.sky_within', clause='no-sky-position-inside', region=True))
         n0 = len(ctx.failures)
         base.judge(ctx, 'C11', c, impl, model)
         for f in ctx.failures[n0:]:      # make the signature say which stream / kind of region
@@ -422,6 +511,16 @@ def run(ctx):
             amb += 1
         else:
             cases.append(c)
+    # size threshold: islands > 1000 px with tiny regions on the peak; rarely varied input: hemispheric / all-sky
+    # projections with islands spilling over the limb and polar-cap regions
+    for k in range(5 if ctx.quick else 40):
+        c = gen_big_island_case(rng, k + ctx.seed)
+        amb += c is None
+        cases += [c] if c is not None else []
+    for k in range(6 if ctx.quick else 60):
+        c = gen_limb_case(rng, k + ctx.seed)
+        amb += c is None
+        cases += [c] if c is not None else []
     ctx.count('ambiguous-skipped', amb)
     for lo in range(0, len(cases), 4000):
         evaluate(ctx, cases[lo:lo + 4000])
